@@ -729,3 +729,18 @@ pub fn probeiter(a: &Args) {
         println!("  next {} {:?} {} {:?}", t.timestamp(), t.offset(), t.abbreviation(), t.dst());
     }
 }
+
+/// jv zoneevents NAME...: the `zone` event (abstract zone read by the independent
+/// reader) of each system zoneinfo file named, one JSON line each (oracle self-check).
+pub fn zoneevents(a: &Args) {
+    for name in &a.rest {
+        if name.starts_with("--") {
+            continue;
+        }
+        let Ok(bytes) = std::fs::read(format!("/usr/share/zoneinfo/{name}")) else { continue };
+        let z = crate::tzcorpus::ZoneSrc { name: name.clone(), class: "system".into(), bytes };
+        if let Ok(az) = crate::tzcorpus::load(&z) {
+            println!("{}", serde_json::to_string(&crate::tzd::zone_event(&az, "system")).unwrap());
+        }
+    }
+}
